@@ -18,6 +18,7 @@ def install(I):
         if not o.alive: raise Finding('double-free', o.name)
         o.alive = False
     for n in ('_Znwm', '_Znam', 'malloc', '__cxa_allocate_exception'): M[n] = malloc_
+    M['_ZnwmRKSt9nothrow_t'] = lambda I, n, nt: malloc_(I, n)      # operator new(size_t, nothrow): allocation failure is not in scope
     for n in ('_ZdlPv', '_ZdaPv', 'free', '_ZdlPvm', '_ZdaPvm'): M[n] = free_
     M['__cxa_free_exception'] = lambda I, p: None
     # std::system_error: category object and constructors are opaque (message text is never the subject)
